@@ -28,9 +28,11 @@ import (
 	"os"
 	"os/exec"
 	"path/filepath"
+	"runtime"
 	"sort"
 	"strings"
 	"sync"
+	"sync/atomic"
 	"testing"
 	"time"
 
@@ -912,12 +914,31 @@ func (env *c11StormEnv) run(c c11Storm) (problem string, inconclusive bool, extr
 	}
 	var wg sync.WaitGroup
 	start := time.Now().Add(2 * time.Millisecond)
+	// requests scheduled for the same microsecond form a burst: they are released together by a spin
+	// barrier, so that they reach the scheduler within nanoseconds of each other (a sleep alone
+	// spreads them over tens of microseconds)
+	type barrier struct{ n, arrived int32 }
+	bars := map[int]*barrier{}
+	for _, r := range c.Reqs {
+		if bars[r.AtUs] == nil {
+			bars[r.AtUs] = &barrier{}
+		}
+		bars[r.AtUs].n++
+	}
 	for _, r := range c.Reqs {
 		r := r
 		wg.Add(1)
 		go func() {
 			defer wg.Done()
 			time.Sleep(time.Until(start.Add(time.Duration(r.AtUs) * time.Microsecond)))
+			if b := bars[r.AtUs]; b.n > 1 {
+				atomic.AddInt32(&b.arrived, 1)
+				for spin := 0; atomic.LoadInt32(&b.arrived) < b.n; spin++ {
+					if spin%2048 == 2047 {
+						runtime.Gosched()
+					}
+				}
+			}
 			id := ids[r.Job]
 			switch r.Kind {
 			case "cron":
@@ -1065,8 +1086,46 @@ func TestVerif_C11_storm(t *testing.T) {
 				AtUs: rapid.IntRange(0, 4000).Draw(t, "atUs"),
 			})
 		}
+		// bursts: several run requests for ONE job id released at the same instant
+		for b := rapid.IntRange(0, 3).Draw(t, "bursts"); b > 0; b-- {
+			job, at := rapid.IntRange(0, c.Jobs-1).Draw(t, "burstJob"), rapid.IntRange(0, 4000).Draw(t, "burstAt")
+			for k := rapid.IntRange(2, 6).Draw(t, "burstSize"); k > 0; k-- {
+				c.Reqs = append(c.Reqs, c11Req{Kind: rapid.SampledFrom([]string{"cron", "event", "event", "manual-incr"}).Draw(t, "burstKind"), Job: job, AtUs: at})
+			}
+		}
 		exec(c, t.Fatalf)
 	})
 }
 
 var _ = server.JobResultIndex
+
+// F28 (fixed): raffle.runningJob (KillJob, job status) read the run table without
+// its mutex and getRunningJobs handed out the live map: a kill or status request
+// that coincides with a job start or end died with "fatal error: concurrent map
+// read and map write". White-box and deterministic: a reader must wait while
+// the table's mutex is held, and the listing must be a copy.
+func TestVerifProbe_F28(t *testing.T) {
+	defer kit.CleanupScratch()
+	h := newVJHub(vjOpts{})
+	defer h.close()
+	raf := h.Runner.raffle
+	raf.runningMu.Lock()
+	done := make(chan struct{})
+	go func() { _ = raf.runningJob("x"); close(done) }()
+	select {
+	case <-done:
+		raf.runningMu.Unlock()
+		t.Fatalf("F28 present: raffle.runningJob reads the run table without taking its mutex")
+	case <-time.After(100 * time.Millisecond):
+	}
+	raf.runningMu.Unlock()
+	<-done
+	m := raf.getRunningJobs()
+	m["probe"] = &runState{}
+	raf.runningMu.Lock()
+	_, leaked := raf.runningJobs["probe"]
+	raf.runningMu.Unlock()
+	if leaked {
+		t.Fatalf("F28 present: getRunningJobs hands out the live run table")
+	}
+}
